@@ -465,6 +465,11 @@ def _grid_oframe(tier, rng):
     for ax in (0, 1, 2):
         for dt in (0.0, 1000.0):
             yield {"orbit": 0, "axes": ax, "moving": 3, "dt": dt, "seed": 60 + ax, "form": 0, "parent": 0}
+    # a reference orbit made from a TLE (mean elements, SGP4): the origin is where SGP4 puts it -- at the very epoch of the TLE as well, where the stored mean elements
+    # are NOT the state
+    for ax in (0, 1, 2):
+        for dt in (0.0, 1000.0, -0.001):
+            yield {"orbit": 0, "axes": ax, "moving": 4, "dt": dt, "seed": 70 + ax, "form": 0, "parent": 0}
 
 
 @contract("C17", "orbit_frame.native", funcs=["beyond.frames.frames:orbit2frame", f"{ORI}:LocalOrbitalOrientation._to_parent", "beyond.frames.center:Center._to_parent", f"{L}:to_local"],
@@ -497,6 +502,13 @@ def _(c):
         from beyond.env.solarsystem import get_body
         pframe = "TEME"
         ref = Orbit(x0, d0, "cartesian", "TEME", KeplerNum(timedelta(seconds=60), get_body("Earth")))   # (propagates, and answers, in EME2000)
+    elif c.integer("moving") == 4:
+        from beyond.io.tle import Tle
+        from contracts.c08_iteration import TLE_TXT
+        pframe = "TEME"
+        ref = Tle(TLE_TXT).orbit()
+        d0 = ref.date
+        form = "tle"
     else:
         ref = Orbit(x0, d0, "cartesian", pframe, Kepler()) if c.integer("moving") else StateVector(x0, d0, "cartesian", pframe)
     ref.form = form
